@@ -537,10 +537,417 @@ Proof.
     + rewrite Pext_pmul_low by lia. ring.
 Qed.
 
+
+(* ---- dependence on the arguments only through the indices actually read ---- *)
+Lemma half_le : ((n - 1) / 2 <= n / 2)%nat.
+Proof. apply Nat.div_le_mono; lia. Qed.
+
+Lemma irfft_ext Y Y' j : (forall k, (k <= n / 2)%nat -> Y k = Y' k) -> irfft Y j = irfft Y' j.
+Proof.
+  intros H. unfold irfft_at. pose proof half_le as Hh.
+  rewrite (H 0%nat) by lia. rewrite (H (n / 2)%nat) by lia.
+  f_equal. f_equal. f_equal.
+  apply S_ext. intros k' Hk'. rewrite (H (S k')) by lia. reflexivity.
+Qed.
+
+Lemma fshift_ext p p' x x' j :
+  (forall k, (k <= n / 2)%nat -> p k = p' k) -> (forall i, (i < n)%nat -> x i = x' i) ->
+  fshift p x j = fshift p' x' j.
+Proof.
+  intros Hp Hx. unfold fshift_fun. apply irfft_ext. intros k Hk.
+  rewrite (rfft_ext x x' k Hx), Hp by exact Hk. reflexivity.
+Qed.
+
+Lemma two_k_le k : (k <= n / 2)%nat -> (2 * k <= n)%nat.
+Proof. intros H. pose proof (Nat.mul_div_le n 2 ltac:(lia)). lia. Qed.
+
+(* ---- phase tables generated by a shift: the algebraic content of
+        np.exp(1j * np.angle(rfft(dephas)) * s) ---- *)
+Section Phase.
+Variable Sh : Type.                       (* shifts (real numbers in the code) *)
+Variables (sh0 sh1 : Sh) (shadd : Sh -> Sh -> Sh) (shopp : Sh -> Sh).
+Variable phase : Sh -> nat -> C.
+Hypothesis ph0 : forall k, phase sh0 k = 1.
+Hypothesis phadd : forall s t k, phase (shadd s t) k = phase s k * phase t k.
+Hypothesis phopp : forall s k, phase (shopp s) k * phase s k = 1.
+Hypothesis ph1 : forall k, (2 * k <= n)%nat -> phase sh1 k = w (- zn k)%Z.   (* = rfft(dephas)[k] *)
+Hypothesis phdc : forall s, phase s 0%nat = 1.                             (* angle(1+0j) = 0 *)
+
+Set Default Proof Using "Cf conj_add conj_mul conj_inv Hn wadd wn wprim wconj nC_ne0 two_ne0 ph0 phadd phopp ph1 phdc".
+
+(* the integer m as a shift: m-fold sum of the unit shift *)
+Definition shN (a : nat) : Sh := Nat.iter a (shadd sh1) sh0.
+Definition shZ (m : Z) : Sh :=
+  if (m <? 0)%Z then shopp (shN (Z.to_nat (- m))) else shN (Z.to_nat m).
+
+Lemma phase_shN a k : (2 * k <= n)%nat -> phase (shN a) k = w (- (zn k * zn a))%Z.
+Proof.
+  intros Hk. induction a as [|a IH].
+  - cbn [shN Nat.iter]. rewrite ph0, Z.mul_0_r. cbn [Z.opp]. now rewrite w0.
+  - change (shN (S a)) with (shadd sh1 (shN a)). rewrite phadd, IH, ph1 by exact Hk.
+    rewrite <- wadd. f_equal. lia.
+Qed.
+
+Lemma phase_shZ m k : (2 * k <= n)%nat -> phase (shZ m) k = w (- (zn k * m))%Z.
+Proof.
+  intros Hk. unfold shZ. destruct (Z.ltb_spec m 0) as [Hm|Hm].
+  - pose proof (phopp (shN (Z.to_nat (- m))) k) as H. rewrite phase_shN in H by exact Hk.
+    rewrite Z2Nat.id in H by lia.
+    apply (mul_cancel_l (w (- (zn k * - m))%Z)); [apply w_ne0|].
+    rewrite <- wadd. replace (- (zn k * - m) + - (zn k * m))%Z with 0%Z by lia. rewrite w0.
+    rewrite <- H. ring.
+  - rewrite phase_shN by exact Hk. rewrite Z2Nat.id by lia. reflexivity.
+Qed.
+
+Lemma ph_fshift_zero x j : real_sig x -> (j < n)%nat -> fshift (phase sh0) x j = x j.
+Proof. intros Hx Hj. apply fshift_id; auto. Qed.
+
+Lemma ph_fshift_int x m j : real_sig x -> fshift (phase (shZ m)) x j = roll m x j.
+Proof. intros Hx. apply fshift_int_roll; auto. intros k Hk. now apply phase_shZ. Qed.
+
+Lemma re_mul_real_r a b : cconj b = b -> re (a * b) = re a * re b.
+Proof.
+  intros Hb. rewrite (re_of_real b Hb). unfold Model.re. rewrite conj_mul, Hb. ring.
+Qed.
+
+Lemma re_mul_real_l a b : cconj a = a -> re (a * b) = re a * re b.
+Proof.
+  intros Ha. rewrite (re_of_real a Ha). unfold Model.re. rewrite conj_mul, Ha. ring.
+Qed.
+
+Lemma ph_fshift_compose s t x j : real_sig x ->
+  (Nat.even n = true ->
+     rfft x (n / 2) = 0 \/ cconj (phase s (n / 2)%nat) = phase s (n / 2)%nat
+                       \/ cconj (phase t (n / 2)%nat) = phase t (n / 2)%nat) ->
+  fshift (phase t) (fshift (phase s) x) j = fshift (phase (shadd s t)) x j.
+Proof.
+  intros Hx Hnyq. rewrite fshift_compose; auto.
+  - apply fshift_ext; auto. intros k _. unfold pmul. now rewrite phadd.
+  - rewrite !phdc. rewrite re_mul_real_l by apply conj_1. reflexivity.
+  - intros He. destruct (Hnyq He) as [H|[H|H]]; [now left| |]; right.
+    + now apply re_mul_real_l.
+    + now apply re_mul_real_r.
+Qed.
+
+Lemma phase_shZ_nyq_real m : Nat.even n = true ->
+  cconj (phase (shZ m) (n / 2)%nat) = phase (shZ m) (n / 2)%nat.
+Proof.
+  intros He. apply Nat.even_spec in He. destruct He as [h Hh].
+  assert (Hh2 : (n / 2 = h)%nat) by (rewrite Hh, Nat.mul_comm; apply Nat.div_mul; lia).
+  rewrite Hh2, phase_shZ by lia. rewrite wconj. apply w_eq.
+  replace (- - (zn h * m) - - (zn h * m))%Z with (zn n * m)%Z by lia.
+  rewrite Z.mul_comm. apply Z.mod_mul. lia.
+Qed.
+
+(* an integer shift composes exactly with any shift, in either order *)
+Lemma ph_fshift_compose_int_r s m x j : real_sig x ->
+  fshift (phase (shZ m)) (fshift (phase s) x) j = fshift (phase (shadd s (shZ m))) x j.
+Proof. intros Hx. apply ph_fshift_compose; auto. intros He. right; right. now apply phase_shZ_nyq_real. Qed.
+
+Lemma ph_fshift_compose_int_l s m x j : real_sig x ->
+  fshift (phase s) (fshift (phase (shZ m)) x) j = fshift (phase (shadd (shZ m) s)) x j.
+Proof. intros Hx. apply ph_fshift_compose; auto. intros He. right; left. now apply phase_shZ_nyq_real. Qed.
+
+Lemma ph_fshift_compose_odd s t x j : real_sig x -> Nat.even n = false ->
+  fshift (phase t) (fshift (phase s) x) j = fshift (phase (shadd s t)) x j.
+Proof. intros Hx Ho. apply ph_fshift_compose; auto. intros He. congruence. Qed.
+
+End Phase.
+Set Default Proof Using "Cf conj_add conj_mul conj_inv Hn wadd wn wprim wconj nC_ne0 two_ne0".
+
+(* ---- list level: the executable fshift1 / fshift_rows / roll_list ---- *)
+Local Notation nthC := (nthC C c0).
+Local Notation fshift1 := (fshift1 C c0 c1 cadd cmul cinv cconj n w).
+Local Notation fshift_rows := (fshift_rows C c0 c1 cadd cmul cinv cconj n w).
+Local Notation roll_list := (roll_list C c0 n).
+
+Lemma nth_map_seq {A} (f : nat -> A) m k d : (k < m)%nat -> nth k (map f (seq 0 m)) d = f k.
+Proof.
+  intros Hk. rewrite (nth_indep _ d (f 0%nat)) by (now rewrite map_length, seq_length).
+  rewrite (map_nth f (seq 0 m) 0%nat k), seq_nth by exact Hk. reflexivity.
+Qed.
+
+Lemma list_as_map (l : list C) : l = map (nthC l) (seq 0 (length l)).
+Proof.
+  apply (nth_ext _ _ c0 c0).
+  - now rewrite map_length, seq_length.
+  - intros k Hk. unfold Model.nthC. now rewrite nth_map_seq.
+Qed.
+
+Lemma fshift1_spec p x : (2 <= n)%nat -> length x = n -> length p = (n / 2 + 1)%nat ->
+  fshift1 p x = Some (map (fshift (nthC p) (nthC x)) (seq 0 n)).
+Proof.
+  intros H2 Hx Hp. unfold Model.fshift1.
+  rewrite Hx, Hp, Nat.eqb_refl, Nat.eqb_refl.
+  destruct (Nat.leb_spec 2 n); [|lia]. cbn [andb]. f_equal.
+  apply map_ext_in. intros j _. unfold fshift_fun. apply irfft_ext. intros k Hk.
+  unfold Model.nthC at 1. rewrite nth_map_seq by lia.
+  unfold Model.nthC at 1. rewrite nth_map_seq by lia. reflexivity.
+Qed.
+
+Lemma fshift1_some p x y : fshift1 p x = Some y ->
+  (2 <= n)%nat /\ length x = n /\ length p = (n / 2 + 1)%nat.
+Proof.
+  unfold Model.fshift1. intros H.
+  destruct (Nat.leb_spec 2 n); [|discriminate].
+  destruct (Nat.eqb_spec (length x) n); [|discriminate].
+  destruct (Nat.eqb_spec (length p) (n / 2 + 1)); [|discriminate]. auto.
+Qed.
+
+Definition real_list (x : list C) : Prop := forall v, In v x -> cconj v = v.
+
+Lemma real_list_sig x : length x = n -> real_list x -> real_sig (nthC x).
+Proof. intros Hl Hx j Hj. apply Hx. unfold Model.nthC. apply nth_In. lia. Qed.
+
+(* shape and realness of the output *)
+Lemma fshift1_shape_real p x y : fshift1 p x = Some y -> length y = n /\ real_list y.
+Proof.
+  intros H. destruct (fshift1_some p x y H) as (H2 & Hx & Hp).
+  rewrite fshift1_spec in H by auto. injection H as <-. split.
+  - now rewrite map_length, seq_length.
+  - intros v Hv. apply in_map_iff in Hv. destruct Hv as [j [<- Hj]]. apply in_seq in Hj.
+    apply fshift_real. lia.
+Qed.
+
+Lemma l_fshift_zero p x : (2 <= n)%nat -> length x = n -> real_list x ->
+  length p = (n / 2 + 1)%nat -> (forall k, (k <= n / 2)%nat -> nthC p k = 1) ->
+  fshift1 p x = Some x.
+Proof.
+  intros H2 Hl Hx Hp H1. rewrite fshift1_spec by auto. f_equal.
+  etransitivity; [|symmetry; apply list_as_map]. rewrite Hl. apply map_ext_in. intros j Hj. apply in_seq in Hj.
+  apply fshift_id; [now apply real_list_sig|lia|]. intros k Hk. apply H1.
+  apply Nat.div_le_lower_bound; lia.
+Qed.
+
+Lemma l_fshift_int p x m : (2 <= n)%nat -> length x = n -> real_list x ->
+  length p = (n / 2 + 1)%nat ->
+  (forall k, (k <= n / 2)%nat -> nthC p k = w (- (zn k * m))%Z) ->
+  fshift1 p x = Some (roll_list m x).
+Proof.
+  intros H2 Hl Hx Hp H1. rewrite fshift1_spec by auto. f_equal. unfold Model.roll_list.
+  apply map_ext_in. intros j _.
+  apply fshift_int_roll; [now apply real_list_sig|]. intros k Hk. apply H1.
+  apply Nat.div_le_lower_bound; lia.
+Qed.
+
+Definition lmul (p q : list C) : list C := map (fun pq => fst pq * snd pq) (combine p q).
+
+Lemma lmul_length p q : length p = length q -> length (lmul p q) = length p.
+Proof. intros H. unfold lmul. rewrite map_length, combine_length. lia. Qed.
+
+Lemma lmul_nth p q k : length p = length q -> (k < length p)%nat ->
+  nthC (lmul p q) k = nthC p k * nthC q k.
+Proof.
+  intros Hl Hk. unfold lmul, Model.nthC.
+  rewrite (nth_indep _ c0 ((fun pq => fst pq * snd pq) (c0, c0)))
+    by (rewrite map_length, combine_length; lia).
+  rewrite (map_nth (fun pq => fst pq * snd pq)), combine_nth by exact Hl. reflexivity.
+Qed.
+
+Lemma l_fshift_compose p q x y z : real_list x ->
+  fshift1 p x = Some y -> fshift1 q y = Some z ->
+  re (nthC p 0 * nthC q 0) = re (nthC p 0) * re (nthC q 0) ->
+  (Nat.even n = true ->
+     rfft (nthC x) (n / 2) = 0 \/
+     re (nthC p (n / 2) * nthC q (n / 2)) = re (nthC p (n / 2)) * re (nthC q (n / 2))) ->
+  fshift1 (lmul p q) x = Some z.
+Proof.
+  intros Hx Hy Hz Hdc Hnyq.
+  destruct (fshift1_some _ _ _ Hy) as (H2 & Hlx & Hlp).
+  destruct (fshift1_some _ _ _ Hz) as (_ & Hly & Hlq).
+  rewrite fshift1_spec in Hy, Hz by auto. injection Hy as <-. injection Hz as <-.
+  rewrite fshift1_spec by (auto; rewrite lmul_length; lia). f_equal.
+  apply map_ext_in. intros j _.
+  rewrite (fshift_ext (nthC q) (nthC q) _ (fshift (nthC p) (nthC x)) j).
+  - rewrite fshift_compose by (auto; now apply real_list_sig).
+    apply fshift_ext; auto. intros k Hk. unfold pmul. rewrite lmul_nth by lia. reflexivity.
+  - auto.
+  - intros i Hi. unfold Model.nthC at 1. now rewrite nth_map_seq.
+Qed.
+
+(* rows: every trace is shifted with its own phase table; the number of traces
+   and their lengths are preserved *)
+Lemma fshift_rows_spec ps X Y : fshift_rows ps X = Some Y ->
+  length Y = length X /\ length ps = length X /\
+  forall i, (i < length X)%nat ->
+    fshift1 (nth i ps []) (nth i X []) = Some (nth i Y []).
+Proof.
+  revert X Y. induction ps as [|p ps IH]; intros [|x X] Y H; cbn [Model.fshift_rows] in H; try discriminate.
+  - injection H as <-. repeat split; auto. intros i Hi. cbn in Hi. lia.
+  - destruct (fshift1 p x) as [y|] eqn:E1; [|discriminate].
+    destruct (fshift_rows ps X) as [Y'|] eqn:E2; [|discriminate].
+    injection H as <-. destruct (IH X Y' E2) as (Ha & Hb & Hc).
+    cbn [length]. repeat split; try lia.
+    intros [|i] Hi; cbn [nth]; [exact E1|]. apply Hc. cbn [length] in Hi. lia.
+Qed.
+
+Lemma fshift_rows_total ps X : (2 <= n)%nat -> length ps = length X ->
+  (forall x, In x X -> length x = n) -> (forall p, In p ps -> length p = (n / 2 + 1)%nat) ->
+  exists Y, fshift_rows ps X = Some Y.
+Proof.
+  intros H2. revert X. induction ps as [|p ps IH]; intros [|x X] Hl HX HP; cbn [length] in Hl; try lia.
+  - exists []. reflexivity.
+  - cbn [Model.fshift_rows].
+    assert (Hx : length x = n) by (apply HX; now left).
+    assert (Hp : length p = (n / 2 + 1)%nat) by (apply HP; now left).
+    rewrite fshift1_spec by assumption.
+    destruct (IH X) as [Y' ->]; [lia| | |].
+    + intros. apply HX. now right.
+    + intros. apply HP. now right.
+    + eexists. reflexivity.
+Qed.
+
+
+(* ---- additivity, and the action on one real sinusoid below Nyquist ---- *)
+Lemma rfft_add x y k : rfft (fun j => x j + y j) k = rfft x k + rfft y k.
+Proof.
+  unfold rfft_at. rewrite <- S_add. apply S_ext. intros j _. ring.
+Qed.
+
+Lemma re_add a b : re (a + b) = re a + re b.
+Proof. unfold Model.re. rewrite conj_add. ring. Qed.
+
+Lemma irfft_add Y Y' j : irfft (fun k => Y k + Y' k) j = irfft Y j + irfft Y' j.
+Proof.
+  unfold irfft_at. rewrite !re_add.
+  rewrite (S_ext _
+     (fun k' => (Y (S k') * w (zn j * zn (S k'))%Z + cconj (Y (S k')) * w (- (zn j * zn (S k')))%Z)
+              + (Y' (S k') * w (zn j * zn (S k'))%Z + cconj (Y' (S k')) * w (- (zn j * zn (S k')))%Z)))
+    by (intros; rewrite conj_add; ring).
+  rewrite S_add. destruct (Nat.even n); ring.
+Qed.
+
+Lemma fshift_additive p x y j :
+  fshift p (fun i => x i + y i) j = fshift p x j + fshift p y j.
+Proof.
+  unfold fshift_fun. rewrite <- irfft_add. apply irfft_ext. intros k _.
+  rewrite rfft_add. ring.
+Qed.
+
+(* spectrum of one complex exponential of frequency a *)
+Lemma rfft_exponential c a k : (a < n)%nat -> (k < n)%nat ->
+  rfft (fun j => c * w (zn j * zn a)%Z) k = if (k =? a)%nat then natC n * c else 0.
+Proof.
+  intros Ha Hk. unfold rfft_at.
+  rewrite (S_ext _ (fun j => c * w (zn j * (zn a - zn k))%Z)).
+  2:{ intros j _. replace (zn j * (zn a - zn k))%Z with (zn j * zn a + - (zn j * zn k))%Z by ring.
+      rewrite wadd. ring. }
+  rewrite S_scale, ortho.
+  destruct (Nat.eqb_spec k a) as [->|Hne].
+  - rewrite Z.sub_diag, Z.mod_0_l by lia. cbn [Z.eqb]. ring.
+  - replace ((zn a - zn k) mod zn n =? 0)%Z with false; [ring|].
+    symmetry. apply Z.eqb_neq. intros E. apply Hne.
+    apply Z.mod_divide in E; [|lia]. destruct E as [q Hq].
+    assert (Hq0 : (-1 < q < 1)%Z) by (split; apply (Zmult_lt_reg_r _ _ (zn n)); lia).
+    lia.
+Qed.
+
+(* A real sinusoid  x_j = c w(ja) + conj(c) w(-ja)  with 0 < a < n/2 (strictly
+   below Nyquist) comes out with its complex amplitude multiplied by p_a:
+   for p_a = e^{-2 pi i a s / n} this is the analytically delayed sinusoid
+   c e^{2 pi i a (j - s)/n} + c.c. *)
+Lemma fshift_harmonic p c a j : (0 < a)%nat -> (2 * a < n)%nat ->
+  fshift p (fun i => c * w (zn i * zn a)%Z + cconj c * w (- (zn i * zn a))%Z) j
+  = (c * p a) * w (zn j * zn a)%Z + cconj (c * p a) * w (- (zn j * zn a))%Z.
+Proof.
+  intros Ha0 Ha.
+  set (x := fun i => c * w (zn i * zn a)%Z + cconj c * w (- (zn i * zn a))%Z).
+  assert (Hx : real_sig x).
+  { intros i _. unfold x. rewrite conj_add, !conj_mul, conj_inv, !wconj, Z.opp_involutive. ring. }
+  apply (mul_cancel_l (natC n)); [exact nC_ne0|].
+  rewrite fshift_full by exact Hx.
+  assert (Hr : forall k, (k < n)%nat ->
+     rfft x k = (if (k =? a)%nat then natC n * c else 0) + (if (k =? n - a)%nat then natC n * cconj c else 0)).
+  { intros k Hk. unfold x. rewrite rfft_add. f_equal.
+    - now apply rfft_exponential; lia.
+    - rewrite <- (rfft_exponential (cconj c) (n - a) k) by lia.
+      apply rfft_ext. intros i _. f_equal. symmetry. apply w_mirror. lia. }
+  rewrite (S_ext _ (fun k => (if (k =? a)%nat then natC n * c * p a * w (zn j * zn a)%Z else 0)
+                             + (if (k =? n - a)%nat then natC n * cconj c * cconj (p a) * w (- (zn j * zn a))%Z else 0))).
+  2:{ intros k Hk. rewrite (Hr k Hk).
+      destruct (Nat.eqb_spec k a) as [E1|H1]; destruct (Nat.eqb_spec k (n - a)) as [E2|H2]; try lia.
+      - rewrite E1, Pext_low by lia. ring.
+      - rewrite E2, Pext_high by lia. replace (n - (n - a))%nat with a by lia.
+        rewrite w_mirror by lia. ring.
+      - ring. }
+  rewrite S_add.
+  rewrite (S_single (fun k => if (k =? a)%nat then _ else 0) n a) by
+    (try lia; intros i _ Hi; destruct (Nat.eqb_spec i a); [contradiction|reflexivity]).
+  rewrite (S_single (fun k => if (k =? n - a)%nat then _ else 0) n (n - a)) by
+    (try lia; intros i _ Hi; destruct (Nat.eqb_spec i (n - a)); [contradiction|reflexivity]).
+  rewrite !Nat.eqb_refl, conj_mul. ring.
+Qed.
+
+(* a constant (DC) signal is left unchanged when the DC phase factor is 1 *)
+Lemma fshift_constant p c j : cconj c = c -> p 0%nat = 1 -> fshift p (fun _ => c) j = c.
+Proof.
+  intros Hc Hp.
+  assert (Hx : real_sig (fun _ : nat => c)) by (intros i _; exact Hc).
+  apply (mul_cancel_l (natC n)); [exact nC_ne0|].
+  rewrite fshift_full by exact Hx.
+  rewrite (S_ext _ (fun k => if (k =? 0)%nat then natC n * c else 0)).
+  - rewrite (S_single _ n 0%nat) by (try lia; intros i _ Hi; destruct (Nat.eqb_spec i 0); [contradiction|reflexivity]).
+    reflexivity.
+  - intros k Hk.
+    rewrite (rfft_ext _ (fun i => c * w (zn i * zn 0)%Z))
+      by (intros i _; cbn [Z.of_nat]; rewrite Z.mul_0_r, w0; ring).
+    rewrite rfft_exponential by lia.
+    destruct (Nat.eqb_spec k 0) as [->|Hne]; [|ring].
+    rewrite Pext_0, Hp, (re_of_real 1 conj_1). cbn [Z.of_nat]. rewrite Z.mul_0_r, w0. ring.
+Qed.
+
+(* ---- axis 0: transpose, rows, transpose ---- *)
+Local Notation transpose := (transpose C c0).
+Definition col (c : nat) (M : list (list C)) : list C := map (fun row => nth c row c0) M.
+
+Lemma transpose_aux_spec m X c :
+  transpose_aux C c0 m X c = map (fun c' => col c' X) (seq c m).
+Proof.
+  revert c. induction m as [|m IH]; intros c; cbn [transpose_aux seq map]; [reflexivity|].
+  now rewrite IH.
+Qed.
+
+Lemma transpose_spec m X : transpose m X = map (fun c' => col c' X) (seq 0 m).
+Proof. apply transpose_aux_spec. Qed.
+
+Lemma transpose_length m X : length (transpose m X) = m.
+Proof. now rewrite transpose_spec, map_length, seq_length. Qed.
+
+Lemma transpose_nth m X c : (c < m)%nat -> nth c (transpose m X) [] = col c X.
+Proof. intros Hc. rewrite transpose_spec. now apply nth_map_seq. Qed.
+
+Local Notation fshift2 := (fshift2 C c0 c1 cadd cmul cinv cconj w).
+
+Lemma fshift2_last_axis nr ps X : fshift2 false nr n ps X = fshift_rows ps X.
+Proof. reflexivity. Qed.
+
+(* along axis 0 (n = number of rows): column c of the result is column c of the
+   input shifted with phase table ps[c]; the shape (n, nc) is preserved *)
+Lemma fshift2_axis0 nc ps X Z : fshift2 true n nc ps X = Some Z ->
+  length Z = n /\ (forall row, In row Z -> length row = nc) /\ length ps = nc /\
+  forall c, (c < nc)%nat -> fshift1 (nth c ps []) (col c X) = Some (col c Z).
+Proof.
+  unfold Model.fshift2. destruct (fshift_rows ps (transpose nc X)) as [Y|] eqn:E; [|discriminate].
+  intros H. injection H as <-.
+  destruct (fshift_rows_spec _ _ _ E) as (Hl & Hps & Hrow). rewrite transpose_length in *.
+  repeat split.
+  - apply transpose_length.
+  - intros row Hrow'. rewrite transpose_spec in Hrow'. apply in_map_iff in Hrow'.
+    destruct Hrow' as [r [<- _]]. unfold col. now rewrite map_length.
+  - exact Hps.
+  - intros c Hc. specialize (Hrow c Hc). rewrite transpose_nth in Hrow by exact Hc.
+    rewrite Hrow. f_equal.
+    destruct (fshift1_shape_real _ _ _ Hrow) as [Hlen _].
+    rewrite (list_as_map (nth c Y [])), Hlen.
+    unfold col. rewrite transpose_spec, map_map. apply map_ext_in. intros r Hr. apply in_seq in Hr.
+    unfold col. rewrite (nth_indep _ c0 (nth r [] c0)) by (rewrite map_length; lia).
+    rewrite (map_nth (fun row => nth r row c0) Y [] c). reflexivity.
+Qed.
+
 End DFT.
 
-(* ------------------------------------------------------------------------ *)
 Unset Default Proof Using.
+
 (* The hypotheses of the DFT section as one record, so that the theorems of
    Props.v can be stated in closed form. *)
 Record setting (C : Type) (c0 c1 : C) (cadd cmul : C -> C -> C) (copp cinv cconj : C -> C)
